@@ -155,6 +155,13 @@ impl Arb for String {
         v.as_str().map(|s| s.to_string()).ok_or_else(|| format!("{v} is not a string"))
     }
 }
+/// A generated signature that asks for Rust's unit where the IDL declares the empty struct `()` gets it; what it
+/// puts on the wire for it is then compared with the IDL's `{}` like everything else.
+impl Arb for () {
+    fn arb(_: &Value) -> Result<Self, String> {
+        Ok(())
+    }
+}
 impl<T: Arb> Arb for Option<T> {
     fn arb(v: &Value) -> Result<Self, String> {
         if v.is_null() {
